@@ -83,7 +83,11 @@ void chk_run_case(uint64_t seed, long c, bool is_sweep)
         if (chance(4)) EP.max_cmds = 300;
         snprintf(mode, sizeof mode, "random history");
         EP.p_event_step = 40 + rn(200); EP.p_handler_trigger = 25; EP.p_hold = 10; EP.p_backpressure = 60; EP.p_cut = 60;
+        bool mx = chance(15);
+        if (mx) { NEXT_WORLD_USE_MUTEX = true; EP.p_handler_trigger = 0; }      /* a mutex interface whose unlock fails once, somewhere in the history */
         eng_gen_table();
+        NEXT_WORLD_USE_MUTEX = false;
+        if (mx) { MX_FAIL_UNLOCK_AT = (long)rn(400); CNT("histories_with_one_failing_unlock"); }
         eng_gen_input(rn(9));
         if (chance(30) && INLEN > 0) { INLEN -= 1 + rn(INLEN > 6 ? 6 : (unsigned)INLEN); }     /* stream ends in a partial line: quiescence in a reading state */
         eng_random_schedules();
